@@ -22,7 +22,9 @@ EXPLANATION = (
     "result, nothing uses fd after close, nothing writes between fini and close. R06.2: the only create/truncate/unlink/rename sites "
     "relative to the spool directory are the dot-file, and the journal without O_TRUNC; the live name is only a rename target or read. "
     "R06.3: every checkpoint-path call that reaches write(2) makes a failure observable to the rename decision. R06.4: dirty marking "
-    "and shutdown checkpoint. R06.5: reload filter literals agree with the rename target and the owner keyword is read back. R06.6 (= R05.6): the buffered writer "
+    "and shutdown checkpoint. R06.5: reload filter literals agree with the rename target and the owner keyword is read back. R06.7: a user whose queue became empty still gets his file rewritten - by the per-user checkpoint (a "
+    "feasible path writes a header-only file) and by the all-users dump (which must learn of such users from something other than the task "
+    "table). R06.8: a value read from the per-user slot array is not passed on after the index has moved. R06.6 (= R05.6): the buffered writer "
     "behind every checkpoint never formats from a consumed va_list, so a task larger than the 4096-byte buffer cannot crash the writer "
     "half-way through a file.")
 NOT_DECIDED = ("that a reloaded daemon schedules exactly the accepted set (needs execution of a reload); atomicity of rename(2) "
@@ -727,6 +729,127 @@ def _gperf_words(prog, file):
     return out
 
 
+def r06_7(prog, rep):
+    """A user whose queue became empty still gets his file rewritten.  The per-user checkpoint does (it writes an empty calendar when no
+    task of the user is found); the all-users dump, taken when the change list overflowed and the names of the changed users are therefore
+    incomplete, must find such users some other way than through the task table (the change list, the spool directory)."""
+    rid = "R06.7"
+    one = prog.fn("chkpnt1", DAEMON)
+    # chkpnt1: the header is written even if no task matched (a path from entry to the rename that passes no echs_task_icalify)
+    R1 = call_sites(one, "renameat")
+    if not R1:
+        raise AnalysisBroken("R06.7: chkpnt1 has no renameat")
+    # path-sensitive (the `header already written` flag correlates the loop with what follows it)
+    flags = set()
+    for b, i, x, line in one.cfg.all_elems():
+        for l, kind, n in writes(x):
+            l_ = strip_casts(l)
+            if l_.get("k") == "ref" and l_.get("dk") == "local" and any(w_ in (l_.get("t") or n.get("t") or "") for w_ in ("bool", "_Bool")):
+                flags.add(l_["n"])
+    seen_empty = []
+
+    def effect(b, i, x, store, _s=seen_empty):
+        if isinstance(x, dict) and x.get("k") == "call":
+            if x.get("fn") == "echs_task_icalify":
+                return {"$task": 1}
+            if x.get("fn") == "renameat" and not store.get("$task"):
+                _s.append(x.get("line"))
+        return None
+    AbsWalk(one, flags, effect=effect, max_states=100000).run()
+    if seen_empty:
+        rep.ok(rid, "chkpnt1/empty-queue-written", one.loc(R1[0].line), "a user without tasks still gets a (header-only) queue file")
+    else:
+        rep.fail(rid, "chkpnt1/empty-queue-written", one.loc(R1[0].line), "the rename is reached only after at least one task was written: "
+                 "a user who cancelled his last task keeps his old queue file")
+    alln = prog.fn("chkpnta", DAEMON)
+    cfg = alln.cfg
+    sources = set()
+    for b, i, x, line in cfg.all_elems():
+        for n in walk(cfg.resolve(x)):
+            if n.get("k") == "call" and n.get("fn") in ("readdir", "opendir", "fdopendir", "scandir"):
+                sources.add(n["fn"])
+            if n.get("k") == "idx" and lv(strip_casts(n["b"])) == "chkpnts":
+                sources.add("chkpnts[]")
+    key = "chkpnta/covers-emptied-users"
+    if sources:
+        rep.ok(rid, key, alln.loc(), "the all-users dump also looks at %s for users who own no task any more" % ", ".join(sorted(sources)))
+    else:
+        rep.fail(rid, key, alln.loc(),
+                 "the all-users dump derives the users it writes from the task table alone: a user who cancelled his last task in a window with "
+                 ">= 16 change notices keeps his old queue file, and the cancelled task is scheduled again after a restart")
+
+
+def r06_8(prog, rep):
+    """Values read from the per-user slot array are current: a local initialised from `snds[i].f` is not used as a call argument after
+    the index has moved on (must-fact `v is snds[i]`, killed by any write to the index or to v).  Locals are told apart by declaration."""
+    rid = "R06.8"
+    f = prog.fn("chkpnta", DAEMON)
+    cfg = f.cfg
+
+    def vid(ref):
+        return "%s#%s" % (ref.get("n"), ref.get("id"))
+    derived = {}    # var#id -> (array, index var#id, plain names)
+    for b, i, x, line in cfg.all_elems():
+        if not (isinstance(x, dict) and x.get("k") == "decl"):
+            continue
+        for d in x["ds"]:
+            if d.get("init") is None:
+                continue
+            ini = strip_casts(cfg.resolve(d["init"]))
+            if ini.get("k") == "mem":
+                base = strip_casts(ini["b"])
+                if base.get("k") == "idx" and strip_casts(base["i"]).get("k") == "ref":
+                    ix = strip_casts(base["i"])
+                    derived["%s#%s" % (d["n"], d.get("id"))] = (lv(strip_casts(base["b"])), vid(ix), d["n"], ix["n"])
+    if not derived:
+        raise AnalysisBroken("R06.8: no local derived from an indexed slot in chkpnta")
+
+    def gen_after(x):
+        out = set()
+        if isinstance(x, dict) and x.get("k") == "decl":
+            for d in x["ds"]:
+                k = "%s#%s" % (d["n"], d.get("id"))
+                if k in derived and d.get("init") is not None:
+                    out.add(("cur", k))
+        return out
+
+    def kills(x):
+        ks = set()
+        for l, kind, n in writes(x):
+            if kind == "decl":
+                continue
+            l_ = strip_casts(l)
+            if l_.get("k") != "ref":
+                continue
+            t = vid(l_)
+            for v, (arr, idx, vn, ixn) in derived.items():
+                if t == idx or t == v:
+                    ks.add(v)
+        return ks
+    from ..flow import MustFacts as _MF
+    mf = _MF(cfg, gen=lambda c, t: set(), kills=kills, extra_gen=gen_after, closure=None, disjunctive=False)
+    n = 0
+    for b, i, x, line in cfg.all_elems():
+        if not (isinstance(x, dict) and x.get("k") == "call"):
+            continue
+        for a in x["a"]:
+            ar = strip_casts(cfg.resolve(a))
+            if ar.get("k") == "ref" and vid(ar) in derived:
+                n += 1
+                v = vid(ar)
+                arr, idx, vn, ixn = derived[v]
+                key = "chkpnta/%s(%s)@%d" % (x.get("fn"), vn, n)
+                facts = mf.at(b, i) or set()
+                if ("cur", v) in facts:
+                    rep.ok(rid, key, f.loc(line), "%s still is %s[%s].… when it is passed to %s()" % (vn, arr, ixn, x.get("fn")))
+                else:
+                    rep.fail(rid, key, f.loc(line),
+                             "%s was read from %s[%s] but %s has moved on when %s(%s) is called: every remaining slot is handled with the first "
+                             "slot's value (the users behind it are never checkpointed)" % (vn, arr, ixn, ixn, x.get("fn"), vn))
+    if n < 2:
+        rep.broken_("rule=R06.8 expected >=2 uses of slot-derived values in chkpnta, found %d" % n)
+
+
 def run(prog, rep, tier, snap):
     rep.rule("R06.1", "write-close-rename protocol in every function that renames into the spool", 12)
     r06_1(prog, rep)
@@ -738,6 +861,10 @@ def run(prog, rep, tier, snap):
     r06_4(prog, rep)
     rep.rule("R06.5", "reload filter agrees with the rename target; owner keyword read back", 5)
     r06_5(prog, rep)
+    rep.rule("R06.7", "a user whose queue became empty still gets his file rewritten (per-user and all-users checkpoint)", 2)
+    r06_7(prog, rep)
+    rep.rule("R06.8", "values read from the per-user slot array are not used after the index has moved on", 2)
+    r06_8(prog, rep)
     from ..rules import valist
     rep.rule("R06.6", "the buffered writer never formats from a consumed va_list (records larger than the write buffer)", 1)
     valist.r_valist(prog, rep, "R06.6", only=("fdprintf",))
